@@ -73,3 +73,6 @@ package packet
 //@   at-call String as f2: assert called(f1) && streq(arg1, l.Channel)
 //@   at-call WriteRawBytes as f3: assert called(f2) && ref(arg1) == ref(l.Data) && len(arg1) == len(l.Data)
 //@   ensures called(f1) && called(f2) && called(f3)
+
+// ---- C04: every packet type below the proto tree with Encode and Decode is checked as a pair -----------------------
+//@ codec-pairs go.minekube.com/gate/pkg/edition/java/proto ; props C04
